@@ -61,13 +61,13 @@ INFEASIBLE = ('infeasible_hash', 'infeasible_region')
 KNOWN_AVOID = {
     # bbob.* functions return float(<array of shape (1,)>) -> TypeError with
     # the installed numpy (>=2.x): fall back to Sphere
-    'bbob_scalar': True,
+    'bbob_scalar': False,  # fixed 5706e54
     # PermutingExperimenter cannot permute parameters whose feasible values
     # are python ints (INTEGER, DISCRETE with int values): np.int64 rejected
-    'permute_int': True,
+    'permute_int': False,  # fixed 6db95d7
     # Hashing/ParamRegionInfeasibleExperimenter.problem_statement() returns
     # the internal object: parents see a copy
-    'infeasible_byref': True,
+    'infeasible_byref': False,  # fixed 4022a12
 }
 
 
